@@ -113,21 +113,12 @@ func ruleP01SummaryEmpty(p *Prog, r *Report) {
 			if !ok {
 				return
 			}
-			lc, ok := strip(bo.X).(*ssa.Call)
-			if !ok {
-				return
-			}
-			bi, ok := lc.Call.Value.(*ssa.Builtin)
-			if !ok || bi.Name() != "len" || rangeElemOf(lc.Call.Args[0]) == nil {
-				return
-			}
-			k, isK := constInt(bo.Y)
-			if !isK {
+			x, exact, desc, isT := emptinessTest(bo)
+			if !isT || elemCollection(x) == nil || strip(elemCollection(x)) != ssa.Value(f.Params[0]) {
 				return
 			}
 			n++
-			okK := (bo.Op == token.EQL && k == 0) || (bo.Op == token.LSS && k == 1) || (bo.Op == token.LEQ && k == 0)
-			r.check(okK, rule, fnm+":empty-line", p.pos(bo.Pos()), "only the empty line is rejected by length", fmt.Sprintf("%s rejects lines by length with %s %d: non-empty summary lines are rejected (or the empty one accepted)", fnm, bo.Op, k))
+			r.check(exact, rule, fnm+":empty-line", p.pos(bo.Pos()), "only the empty line is rejected by length", fmt.Sprintf("%s rejects lines by length with %s: non-empty summary lines are rejected (or the empty one accepted)", fnm, desc))
 		})
 		if n == 0 {
 			r.bad(rule, fnm+":empty-line", p.pos(f.Pos()), "%s does not reject empty lines", fnm)
@@ -323,4 +314,147 @@ func nonEmptyFact(g Guard) (ssa.Value, bool) {
 		return arg, true
 	}
 	return arg, true
+}
+
+// emptinessTest: bo compares a string with "" or the length of x with a constant.  exact reports
+// whether the comparison separates exactly the empty value from all others (in either polarity:
+// which edge is taken is the business of the nilness / error-path rules).
+func emptinessTest(bo *ssa.BinOp) (x ssa.Value, exact bool, desc string, ok bool) {
+	switch bo.Op {
+	case token.EQL, token.NEQ, token.LSS, token.LEQ, token.GTR, token.GEQ:
+	default:
+		return nil, false, "", false
+	}
+	if isStringType(bo.X.Type()) {
+		a, b := bo.X, bo.Y
+		if s, isS := constString(a); isS && s == "" {
+			a, b = b, a
+		}
+		if s, isS := constString(b); isS && s == "" && (bo.Op == token.EQL || bo.Op == token.NEQ) {
+			return a, true, "", true
+		}
+		return nil, false, "", false
+	}
+	if !isIntType(bo.X.Type()) {
+		return nil, false, "", false
+	}
+	d := polySub(polyOf(bo.X), polyOf(bo.Y))
+	if len(d.Terms) != 1 {
+		return nil, false, "", false
+	}
+	var coef int64
+	for k, c := range d.Terms {
+		lc, isC := strip(d.leafV[k]).(*ssa.Call)
+		if !isC {
+			return nil, false, "", false
+		}
+		bi, isB := lc.Call.Value.(*ssa.Builtin)
+		if !isB || bi.Name() != "len" {
+			return nil, false, "", false
+		}
+		coef, x = c, lc.Call.Args[0]
+	}
+	at := func(n int64) bool {
+		v := coef*n + d.C
+		return map[token.Token]bool{token.EQL: v == 0, token.NEQ: v != 0, token.LSS: v < 0, token.LEQ: v <= 0, token.GTR: v > 0, token.GEQ: v >= 0}[bo.Op]
+	}
+	t0 := at(0)
+	exact = at(1) != t0 && at(2) != t0 && at(1000000) != t0
+	return x, exact, fmt.Sprintf("len %s (difference %s)", bo.Op, d.String()), true
+}
+
+// elemCollection: v is an element coll[i] (any index), possibly through the copy into a local
+// or iteration variable; returns coll.
+func elemCollection(v ssa.Value) ssa.Value {
+	v = strip(v)
+	for hops := 0; hops < 3; hops++ {
+		switch x := v.(type) {
+		case *ssa.Alloc:
+			sts := storesTo(x)
+			if len(sts) != 1 {
+				return nil
+			}
+			v = strip(sts[0].val)
+			continue
+		case *ssa.UnOp:
+			if x.Op != token.MUL {
+				return nil
+			}
+			if a := cellOf(x.X); a != nil {
+				sts := storesTo(a)
+				if len(sts) != 1 {
+					return nil
+				}
+				v = strip(sts[0].val)
+				continue
+			}
+			if ia, ok := x.X.(*ssa.IndexAddr); ok {
+				return ia.X
+			}
+			return nil
+		case *ssa.IndexAddr:
+			return x.X
+		case *ssa.Index:
+			return x.X
+		}
+		return nil
+	}
+	return nil
+}
+
+// emptyGuard: the guard establishes that x is empty (isEmpty) or not empty (!isEmpty), through a
+// comparison with "" or any comparison of len(x) that separates exactly 0 from the rest.
+func emptyGuard(g Guard) (x ssa.Value, isEmpty bool, ok bool) {
+	bo, isB := normCmp(g.Cond)
+	if !isB {
+		return nil, false, false
+	}
+	x, exact, _, isT := emptinessTest(bo)
+	if !isT || !exact {
+		return nil, false, false
+	}
+	var trueAtEmpty bool
+	if isStringType(bo.X.Type()) {
+		trueAtEmpty = bo.Op == token.EQL
+	} else {
+		d := polySub(polyOf(bo.X), polyOf(bo.Y))
+		v := d.C
+		trueAtEmpty = map[token.Token]bool{token.EQL: v == 0, token.NEQ: v != 0, token.LSS: v < 0, token.LEQ: v <= 0, token.GTR: v > 0, token.GEQ: v >= 0}[bo.Op]
+	}
+	return x, trueAtEmpty == g.Pol, true
+}
+
+// lookupOf: v is m[k], directly or through a module accessor whose body is `return recv.m[param]`
+// (its arguments then stand for the key).
+func lookupOf(v ssa.Value) (key ssa.Value, ok bool) {
+	v = strip(v)
+	if lk, isL := v.(*ssa.Lookup); isL {
+		return lk.Index, true
+	}
+	c, isC := v.(*ssa.Call)
+	if !isC || c.Call.IsInvoke() || gp == nil {
+		return nil, false
+	}
+	g := rawStaticCallee(c)
+	if g == nil || !gp.inMod(g) || len(g.Blocks) != 1 {
+		return nil, false
+	}
+	rets := plainReturnsOf(g)
+	if len(rets) != 1 || len(rets[0].Results) != 1 {
+		return nil, false
+	}
+	lk, isL := plainDeref(rets[0].Results[0]).(*ssa.Lookup)
+	if !isL {
+		return nil, false
+	}
+	idx := lk.Index
+	if cv, isCv := idx.(*ssa.ChangeType); isCv {
+		idx = cv.X
+	}
+	for i, prm := range g.Params {
+		if idx == ssa.Value(prm) && i < len(c.Call.Args) {
+			return c.Call.Args[i], true
+		}
+	}
+	return nil, false
 }
